@@ -179,6 +179,32 @@ def all_shapes():
     return d
 
 
+BINARY_OPS = ("ADD", "SUB", "MUL", "DIV", "MOD", "LG_AND", "LG_OR", "CMP_GT", "CMP_LT", "CMP_LE", "CMP_GE", "CMP_NE", "CMP_EQ")
+
+
+def variants(kind):
+    """[(label, constructor)]: an opaque node and one REAL node of every class of the kind ("E" expressions, with a BinaryExpression per
+    operator; "S" statements).  Code under contract that must treat a child as a black box is run with every variant in the child's place,
+    so a handler that looks inside its child (isinstance tests, operator tests) is exercised on the classes it could test for."""
+    a = A()
+    import nsl.op as op
+    out = []
+    if kind == "E":
+        out.append(("opaque", lambda: E("v")))
+        for label, mk in expression_shapes().items():
+            if label != "BinaryExpression":
+                out.append((label, lambda mk=mk: mk()[0]))
+        for o in BINARY_OPS:
+            out.append((f"BinaryExpression/{o}", lambda o=o: a.BinaryExpression(op.Operation[o], E("vl"), E("vr"))))
+        for o in ("ASSIGN_ADD_EQUAL", "ASSIGN_SUB_EQUAL", "ASSIGN_MUL_EQUAL", "ASSIGN_DIV_EQUAL"):
+            out.append((f"AssignmentExpression/{o}", lambda o=o: a.AssignmentExpression(E("vl"), E("vr"), operation=op.Operation[o])))
+    else:
+        out.append(("opaque", lambda: S("v")))
+        for label, mk in statement_shapes().items():
+            out.append((label, lambda mk=mk: mk()[0]))
+    return out
+
+
 def children_of(node):
     """The child nodes of a real AST node in declaration order, read off the node's
     own fields (every attribute holding a Node / list / dict / set of Nodes), NOT via _Traverse."""
